@@ -37,7 +37,8 @@ type Config struct {
 	MaxFds       int    `json:"max_fds,omitempty"`
 	Direct       bool   `json:"direct,omitempty"`
 	SyncAdd      bool   `json:"sync_add,omitempty"`
-	RegChunk     int64  `json:"registry_chunk,omitempty"` // BlobConfig.ChunkSize (0 = default 50000)
+	ValidSec     int64  `json:"valid_interval_sec,omitempty"` // blob connectivity-check interval (0 = 3600: checks never reach the registry)
+	RegChunk     int64  `json:"registry_chunk,omitempty"`     // BlobConfig.ChunkSize (0 = default 50000)
 	PrefetchChnk int64  `json:"prefetch_chunk,omitempty"`
 	PassThrough  bool   `json:"passthrough,omitempty"`
 	MergeBuf     int64  `json:"merge_buf,omitempty"`
@@ -131,13 +132,17 @@ func New(cfg Config) (*Stack, error) {
 	if fetchTO == 0 {
 		fetchTO = 5
 	}
+	validSec := cfg.ValidSec
+	if validSec == 0 {
+		validSec = 3600
+	}
 	fc := config.Config{
 		HTTPCacheType:            cfg.HTTPCache,
 		FSCacheType:              cfg.FSCache,
 		ResolveResultEntryTTLSec: cfg.TTLSec,
 		PrefetchTimeoutSec:       cfg.PrefetchTO,
 		PrefetchAsyncSize:        cfg.AsyncSize,
-		BlobConfig:               config.BlobConfig{ChunkSize: cfg.RegChunk, PrefetchChunkSize: cfg.PrefetchChnk, FetchTimeoutSec: fetchTO, ValidInterval: 3600},
+		BlobConfig:               config.BlobConfig{ChunkSize: cfg.RegChunk, PrefetchChunkSize: cfg.PrefetchChnk, FetchTimeoutSec: fetchTO, ValidInterval: validSec},
 		DirectoryCacheConfig:     config.DirectoryCacheConfig{MaxLRUCacheEntry: cfg.LRUEntries, MaxCacheFds: cfg.MaxFds, SyncAdd: cfg.SyncAdd, Direct: cfg.Direct},
 		FuseConfig:               config.FuseConfig{PassThrough: cfg.PassThrough, MergeBufferSize: cfg.MergeBuf, MergeWorkerCount: cfg.MergeWorkers},
 	}
